@@ -111,6 +111,11 @@ func DrawRec(t *tape.Tape, s Shape) LRec {
 	if s.SkipValue != "" && t.Chance("rec.skip", 1, 4) {
 		r.Vals[0] = s.SkipValue
 	}
+	if s.NFields > 2 && t.Chance("rec.long", 1, 24) {
+		// a value longer than the internal buffers of the layered readers (128, 512, 4096 bytes)
+		n := []int{130, 520, 4100, 9000}[t.Intn("rec.long.n", 4)]
+		r.Vals[2] = r.Vals[2] + strings.Repeat("Lo", n/2)
+	}
 	if s.NItemFields > 0 {
 		t.Repeat("rec.item", 0, 4, 2, 3, func(int) {
 			it := make([]string, s.NItemFields)
